@@ -4,6 +4,7 @@ import (
 	"fmt"
 	"go/types"
 	"math"
+	"regexp"
 	"strconv"
 	"strings"
 
@@ -71,6 +72,14 @@ func (ex *Exec) errorValue(msg string) Value {
 	l := ex.newLoc(ex.w.errStringT.Elem())
 	l.kids[0].v = StringV{s: msg}
 	return IfaceV{t: ex.w.errStringT, v: l}
+}
+
+// nativeErr turns a native library error into an opaque error value (nil stays nil).
+func (ex *Exec) nativeErr(err error) Value {
+	if err == nil {
+		return IfaceV{}
+	}
+	return ex.errorValue(err.Error())
 }
 
 func (ex *Exec) byteSliceTerms(v Value) []*Term {
@@ -547,6 +556,53 @@ func init() {
 			}
 			sb := ex.strBytes(s)[s.Len()-p.Len():]
 			return ex.strEq(ex.mkString(sb), p)
+		},
+		"strconv.ParseInt": func(ex *Exec, fn *ssa.Function, a []Value) Value {
+			v, err := strconv.ParseInt(ex.argStr(a[0]), int(ex.argInt(a[1])), int(ex.argInt(a[2])))
+			return TupleV{ex.st.BVs(64, v), ex.nativeErr(err)}
+		},
+		"strconv.ParseUint": func(ex *Exec, fn *ssa.Function, a []Value) Value {
+			v, err := strconv.ParseUint(ex.argStr(a[0]), int(ex.argInt(a[1])), int(ex.argInt(a[2])))
+			return TupleV{ex.st.BV(64, v), ex.nativeErr(err)}
+		},
+		"strconv.Atoi": func(ex *Exec, fn *ssa.Function, a []Value) Value {
+			v, err := strconv.Atoi(ex.argStr(a[0]))
+			return TupleV{ex.st.BVs(64, int64(v)), ex.nativeErr(err)}
+		},
+		"strconv.ParseFloat": func(ex *Exec, fn *ssa.Function, a []Value) Value {
+			v, err := strconv.ParseFloat(ex.argStr(a[0]), int(ex.argInt(a[1])))
+			return TupleV{ex.st.FP(v), ex.nativeErr(err)}
+		},
+		"regexp.MustCompile": func(ex *Exec, fn *ssa.Function, a []Value) Value {
+			re := regexp.MustCompile(ex.argStr(a[0]))
+			l := ex.newLoc(types.NewStruct(nil, nil))
+			ex.w.regexps.Store(l, re)
+			ex.regexps[l] = re
+			return l
+		},
+		"(*regexp.Regexp).FindSubmatch": func(ex *Exec, fn *ssa.Function, a []Value) Value {
+			re := ex.regexps[a[0].(*Loc)]
+			if re == nil {
+				ex.unsupported("regexp object of unknown origin")
+			}
+			raw, ok := ex.nativeArg(a[1])
+			if !ok {
+				ex.unsupported("regexp match on symbolic bytes")
+			}
+			mm := re.FindSubmatch(raw.([]byte))
+			if mm == nil {
+				return SliceV{}
+			}
+			bt := types.NewSlice(types.Typ[types.Uint8])
+			arr := ex.newArray(bt, len(mm))
+			for k, m := range mm {
+				bs := make([]*Term, len(m))
+				for j, c := range m {
+					bs[j] = ex.st.BV(8, uint64(c))
+				}
+				ex.kid(arr, k).v = ex.newByteSlice(bs)
+			}
+			return SliceV{arr: arr, len: len(mm), cap: len(mm)}
 		},
 		"maps.Clone": func(ex *Exec, fn *ssa.Function, a []Value) Value {
 			m, _ := a[0].(*MapObj)
